@@ -66,6 +66,83 @@ pub trait Scene {
     }
 }
 
+/// A scene re-run under a neutral ambient configuration (see [`crate::scenes::Ambient`]).
+pub struct Amb {
+    pub inner: Box<dyn Scene>,
+    pub amb: crate::scenes::Ambient,
+}
+
+impl Scene for Amb {
+    fn roles(&self) -> Vec<RoleCfg> {
+        self.inner.roles()
+    }
+    fn pre(&self) {
+        self.inner.pre();
+        crate::scenes::set_ambient(self.amb);
+    }
+    fn setup(&self, exec: &Exec) {
+        self.inner.setup(exec)
+    }
+    fn check(&self, t: &Trace) -> Vec<Violation> {
+        self.inner.check(t)
+    }
+    fn observe(&self, t: &Trace) {
+        self.inner.observe(t)
+    }
+    fn finish(&self, complete: bool) -> Vec<Violation> {
+        self.inner.finish(complete)
+    }
+    fn export(&self) -> Option<Value> {
+        self.inner.export()
+    }
+}
+
+/// Wraps every case of a family in an ambient configuration.
+pub fn with_ambient(cases: Vec<Case>, amb: crate::scenes::Ambient) -> Vec<Case> {
+    let mut tag = vec![];
+    if amb.generous_timeout {
+        tag.push("timeout 1000");
+    }
+    if amb.recreate {
+        tag.push("recreate");
+    }
+    if amb.roomy {
+        tag.push("bounded 16");
+    }
+    if amb.stream {
+        tag.push("stream loop");
+    }
+    let tag = format!(" [ambient: {}]", tag.join(", "));
+    cases
+        .into_iter()
+        .map(|c| {
+            let mut exec = c.exec;
+            if amb.stream || amb.generous_timeout {
+                // the attached stream / the 1000-tick delay is never ready, so the order in
+                // which select! polls its branches cannot matter (families that configure
+                // timeouts or streams of their own keep those cases out of these passes)
+                exec.select_choice = false;
+            }
+            Case { desc: format!("{}{tag}", c.desc), exec, bound: c.bound, scene: Box::new(Amb { inner: c.scene, amb }) }
+        })
+        .collect()
+}
+
+/// A family plus its ambient re-runs: (generous timeout + roomy bounded mailbox), (recreate),
+/// and - for the cases `stream_ok` admits (those that never restart an actor) - the stream loop.
+/// The filters see the case description; `generous_ok` must reject cases that configure a
+/// timeout themselves, `recreate_ok` those whose oracle follows an instance across a restart.
+pub fn widen(base: &dyn Fn() -> Vec<Case>, generous_ok: &dyn Fn(&str) -> bool, recreate_ok: &dyn Fn(&str) -> bool, stream_ok: Option<&dyn Fn(&str) -> bool>) -> Vec<Case> {
+    use crate::scenes::Ambient;
+    let mut v = base();
+    v.extend(with_ambient(base().into_iter().filter(|c| generous_ok(&c.desc)).collect(), Ambient { generous_timeout: true, roomy: true, ..Default::default() }));
+    v.extend(with_ambient(base().into_iter().filter(|c| recreate_ok(&c.desc)).collect(), Ambient { recreate: true, ..Default::default() }));
+    if let Some(ok) = stream_ok {
+        v.extend(with_ambient(base().into_iter().filter(|c| ok(&c.desc)).collect(), Ambient { stream: true, ..Default::default() }));
+    }
+    v
+}
+
 thread_local! {
     static OBLIGATIONS: std::cell::RefCell<BTreeMap<&'static str, u64>> = const { std::cell::RefCell::new(BTreeMap::new()) };
 }
@@ -103,6 +180,7 @@ pub struct Property {
 // ---------------------------------------------------------------- running one execution
 
 pub fn run_case_once(case: &Case, prefix: &[ChoiceRec]) -> (ExecResult, Vec<Entry>, u64) {
+    crate::scenes::set_ambient(Default::default());
     case.scene.pre();
     world::reset(case.scene.roles());
     let on_event: Rc<dyn Fn(vexec::ExecEvent, u64, u64)> = Rc::new(|ev, _, _| world::log_exec(ev));
@@ -125,6 +203,7 @@ pub fn run_case_once(case: &Case, prefix: &[ChoiceRec]) -> (ExecResult, Vec<Entr
 #[cfg(feature = "rt-tokio")]
 pub fn run_case_real(case: &Case) -> Vec<Entry> {
     use std::future::Future;
+    crate::scenes::set_ambient(Default::default());
     case.scene.pre();
     world::reset(case.scene.roles());
     world::set_real_mode(true);
@@ -693,11 +772,18 @@ pub fn check_main(prop: &Property, tier: Tier) -> i32 {
         }
         new_violations += 1;
         let h = world::hash_of(&(prop.id, key.as_str()));
-        let path = format!("/verif/replays/{}-{}{:08x}.json", prop.id, if prop.id == "C18" { format!("{}-", crate::props::c18::RUNTIME) } else { String::new() }, h as u32);
+        let path = format!(
+            "/verif/replays/{}-{}{}{:08x}.json",
+            prop.id,
+            if prop.id == "C18" { format!("{}-", crate::props::c18::RUNTIME) } else { String::new() },
+            if cfg!(debug_assertions) { "dbg-" } else { "" },
+            h as u32
+        );
         let replay = json!({
             "property": prop.id,
             "tier": tier.name(),
             "flavour": crate::props::c18::RUNTIME,
+            "profile": if cfg!(debug_assertions) { "dbg" } else { "release" },
             "case_index": v["case_index"],
             "case_desc": v["case_desc"],
             "clause": v["clause"],
@@ -771,6 +857,7 @@ pub fn check_main(prop: &Property, tier: Tier) -> i32 {
             "caps_hit": caps,
             "known_findings_reproduced": known_hits,
             "workers": nworkers,
+            "build_profile": if cfg!(debug_assertions) { "dbg (release + debug assertions)" } else { "release" },
             "machinery_errors": machinery,
         },
         "assumptions": assumptions,
@@ -790,9 +877,10 @@ pub fn check_main(prop: &Property, tier: Tier) -> i32 {
     let path = std::env::var("VERIF_EVIDENCE_FILE").unwrap_or_else(|_| format!("/verif/evidence/{}.json", prop.id));
     std::fs::write(&path, serde_json::to_string_pretty(&evidence).unwrap()).expect("write evidence");
     println!(
-        "{} {}: cases={} schedules={} states={} transitions={} outcomes={} max_depth={} exhaustive={} caps={:?} wall={:.1}s",
+        "{} {}{}: cases={} schedules={} states={} transitions={} outcomes={} max_depth={} exhaustive={} caps={:?} wall={:.1}s",
         prop.id,
         tier.name(),
+        if cfg!(debug_assertions) { " [debug-assertions build]" } else { "" },
         ncases,
         schedules,
         states,
@@ -884,4 +972,28 @@ pub fn replay_main(props: &[Property], file: &str) -> i32 {
         }
         1
     }
+}
+
+/// `mc show <ID> <tier> <substring>`: runs the default schedule of the first case whose
+/// description contains the substring and prints its log (a debugging aid, not a check).
+pub fn show_main(props: &[Property], pid: &str, tier: Tier, pat: &str) -> i32 {
+    let Some(prop) = props.iter().find(|p| p.id == pid) else {
+        eprintln!("unknown property {pid}");
+        return 2;
+    };
+    let cases = (prop.cases)(tier);
+    let Some((idx, case)) = cases.iter().enumerate().find(|(_, c)| c.desc.contains(pat)) else {
+        eprintln!("no case matches {pat:?}");
+        return 2;
+    };
+    quiet_panics();
+    let (r1, log1, _) = run_case_once(case, &[]);
+    println!("case #{idx}: {}", case.desc);
+    for e in &log1 {
+        println!("{}", fmt_entry(e));
+    }
+    for vi in case.scene.check(&Trace { log: &log1, res: &r1 }) {
+        println!("VIOLATED clause={} key={} :: {}", vi.clause, vi.key, vi.detail);
+    }
+    0
 }
